@@ -179,6 +179,9 @@ theorem solv_step_at {I : Int → Int} {T : Int → Int → Option Int} {st : St
     | xfer a b amt =>
       obtain ⟨_, _, rfl⟩ := doXfer_ok h
       exact ⟨hs0, hs1⟩
+    | chown a b =>
+      obtain ⟨_, _, rfl⟩ := doChown_ok h
+      exact ⟨hs0, hs1⟩
 
 /-- the same under the global contract for the plan's liquidity decimals -/
 theorem solv_step {I : Int → Int} {T : Int → Int → Option Int} {st : State} (op : Op)
@@ -265,6 +268,7 @@ theorem trade_potential_at {I : Int → Int} {T : Int → Int → Option Int} {s
     | claim _ => simp [isTradeBy] at hop
     | claimv _ => simp [isTradeBy] at hop
     | xfer _ _ _ => simp [isTradeBy] at hop
+    | chown _ _ => simp [isTradeBy] at hop
 
 theorem besOkAt_of_global {I : Int → Int} {T : Int → Int → Option Int} {st : State} {p : Plan}
     (hp : st.plan = some p) (op : Op) (hN : isBes op = true → NewtonUpper I T p.L) : BesOkAt I T st op := by
